@@ -139,7 +139,43 @@ impl<KT: DbMapKeyType> FileDbXxxInner<KT> {
 }
 
 // delete: NEW
-impl<KT: DbMapKeyType> FileDbXxxInner<KT> {}
+impl<KT: DbMapKeyType> FileDbXxxInner<KT> {
+    /// a key piece has moved from `old_offset` to `new_offset`:
+    /// re-link its predecessor in the bucket chain (or the bucket head).
+    /// the predecessor may move too, then repeat toward the head.
+    fn relink_moved_key(
+        &mut self,
+        hash: HashValue,
+        old_offset: KeyPieceOffset,
+        new_offset: KeyPieceOffset,
+    ) -> Result<()> {
+        let mut old_offset = old_offset;
+        let mut new_offset = new_offset;
+        loop {
+            let mut curr = self.htx_file.read_key_piece_offset(hash)?;
+            if curr == old_offset {
+                return self.htx_file.write_key_piece_offset(hash, new_offset);
+            }
+            while !curr.is_zero() {
+                let mut piece = self.key_file.read_piece(curr)?;
+                if piece.bucket_next_offset == old_offset {
+                    piece.bucket_next_offset = new_offset;
+                    let new_piece = self.key_file.write_piece(piece)?;
+                    if new_piece.offset == curr {
+                        return Ok(());
+                    }
+                    old_offset = curr;
+                    new_offset = new_piece.offset;
+                    break;
+                }
+                curr = piece.bucket_next_offset;
+            }
+            if curr.is_zero() {
+                return Ok(());
+            }
+        }
+    }
+}
 
 // find: NEW
 impl<KT: DbMapKeyType> FileDbXxxInner<KT> {
@@ -249,7 +285,8 @@ impl<KT: DbMapKeyType> DbXxxObjectSafe<KT> for FileDbXxxInner<KT> {
         if let Some((key_offset, _prev_key_offset)) = opt {
             let new_key_offset = self.store_value_on_insert(key_offset, value)?;
             if key_offset != new_key_offset {
-                unimplemented!("key_offset != new_key_offset : in put_kt");
+                _cold();
+                self.relink_moved_key(hash, key_offset, new_key_offset)?;
             }
         } else {
             _cold();
@@ -287,7 +324,7 @@ impl<KT: DbMapKeyType> DbXxxObjectSafe<KT> for FileDbXxxInner<KT> {
                 let new_prev_key = self.key_file.write_piece(prev_key_piece)?;
                 if _prev_key_offset != new_prev_key.offset {
                     _cold();
-                    panic!("_prev_key_offset != new_prev_key_offset : in del_kt");
+                    self.relink_moved_key(hash, _prev_key_offset, new_prev_key.offset)?;
                 }
             }
             //
